@@ -537,7 +537,7 @@ impl Check for C20 {
     fn run_episode(&self, seed: u64, idx: u64, ctx: &mut Ctx<'_>, out: &mut Vec<Violation>) {
         let mut wl = Rng::derive(seed, "workload");
         let mut hr = Rng::derive(seed, "hash");
-        let gcfg = GenCfg { wrappers: false, third: false, ..GenCfg::draw(&mut wl) };
+        let gcfg = GenCfg { wrappers: false, third: false, large: true, ..GenCfg::draw(&mut wl) };
         let spec = if gcfg.parts && wl.chance(1, 10) {
             match wl.below(3) {
                 0 => Spec::ChunkOnly(gen_chunk(&mut wl, &gcfg)),
